@@ -2,6 +2,7 @@
 from lib import *
 
 PROP = "C05"
+PAR_OK = True
 LEVEL = "proof"
 RULE = ("random multifurcating trees (3..14 tips, rooted/unrooted, parent slot at random positions as after earlier "
         "re-rootings, lengths present/zero), every op of {reroot at each pre-order node index incl. tips and out of range, "
